@@ -10,6 +10,7 @@ import (
 	"io"
 	"io/fs"
 	"reflect"
+	"slices"
 	"sort"
 
 	"github.com/open2b/scriggo/ast"
@@ -182,9 +183,11 @@ func (t *Template) Format() Format {
 // UsedVars returns the names of the global variables used in the template.
 // A variable used in dead code may not be returned as used.
 func (t *Template) UsedVars() []string {
-	vars := make([]string, len(t.globals))
-	for i, global := range t.globals {
-		vars[i] = global.Name
+	vars := make([]string, 0, len(t.globals))
+	for _, global := range t.globals {
+		if !slices.Contains(vars, global.Name) {
+			vars = append(vars, global.Name)
+		}
 	}
 	sort.Strings(vars)
 	return vars
@@ -203,7 +206,16 @@ func initGlobalVariables(variables []compiler.Global, init map[string]any) []ref
 		init = emptyInit
 	}
 	values := make([]reflect.Value, n)
+	// A variable can be recorded more than once, by different files: all its
+	// records share the same value.
+	var shared map[string]reflect.Value
 	for i, variable := range variables {
+		if variable.Pkg == "main" && !variable.Value.IsValid() {
+			if v, ok := shared[variable.Name]; ok && v.Type() == variable.Type {
+				values[i] = v
+				continue
+			}
+		}
 		if variable.Pkg == "main" {
 			if value, ok := init[variable.Name]; ok {
 				if variable.Value.IsValid() {
@@ -227,6 +239,10 @@ func initGlobalVariables(variables []compiler.Global, init map[string]any) []ref
 					}
 					values[i] = reflect.ValueOf(value).Elem()
 				}
+				if shared == nil {
+					shared = map[string]reflect.Value{}
+				}
+				shared[variable.Name] = values[i]
 				continue
 			}
 		}
@@ -234,6 +250,12 @@ func initGlobalVariables(variables []compiler.Global, init map[string]any) []ref
 			values[i] = variable.Value
 		} else {
 			values[i] = reflect.New(variable.Type).Elem()
+			if variable.Pkg == "main" {
+				if shared == nil {
+					shared = map[string]reflect.Value{}
+				}
+				shared[variable.Name] = values[i]
+			}
 		}
 	}
 	return values
